@@ -28,6 +28,15 @@ def gen_cases(tier, seed):
             cases.append("elem %d %d ? %s" % (p, rnd.choice([value(rnd), 64 + p]), allq))
             continue
         dom = rnd.sample(range(NP), rnd.choice([1, 2, 3, 8, 16, 30]))
+        if i % 7 == 5:
+            # a copy of a substitution is a substitution of its own: it keeps the bindings it was copied with, whatever the
+            # original receives afterwards (rebinding of the copied parameters included)
+            b1 = ["%d:%d" % (rnd.choice(dom), value(rnd)) for _ in range(rnd.choice([1, 2, 5, 12]))]
+            b2 = ["%d:%d" % (rnd.choice(dom), value(rnd)) for _ in range(rnd.choice([1, 2, 5]))]
+            if rnd.random() < 0.6:
+                b2.insert(0, "%s:%d" % (b1[-1].split(":")[0], value(rnd)))     # rebinding the most recent one
+            cases.append("%s %s %s ? %s" % (rnd.choice(["copy", "copyc"]), ",".join(b1), ",".join(b2), allq))
+            continue
         ln = rnd.choice([0, 1, 2, 5, 20, 100])
         bs = ["%d:%d" % (rnd.choice(dom), value(rnd)) for _ in range(ln)]
         qs = list(range(NP)) if i % 3 == 0 else [rnd.randrange(NP) for _ in range(10)]
@@ -46,6 +55,8 @@ def expected(case):
         p, v = int(w[1]), int(w[2])
         return " ".join(val(v) if q == p else "p%d" % q for q in qs)
     m = {}
+    if w[0] in ("copy", "copyc"):
+        w = ["gen", w[1]] + w[3:]
     if w[1] != "-":
         for b in w[1].split(","):
             p, v = b.split(":")
@@ -61,11 +72,14 @@ def check(res):
     outs, crashes = run_cases(exe, cases, env=SAN_ENV)
     for idx, err in crashes[:3]:
         res.violation("crash", "subst driver aborted", {"case": cases[idx][:1000], "stderr": err})
-    ml = run([model, "subst"], input="\n".join(cases) + "\n", timeout=600).stdout.splitlines()
+    def for_model(c):
+        w = c.split()
+        return " ".join(["gen", w[1]] + w[3:]) if w[0] in ("copy", "copyc") else c
+    ml = run([model, "subst"], input="\n".join(for_model(c) for c in cases) + "\n", timeout=600).stdout.splitlines()
     keys = set()
     nd = 0
     for i, (c, o) in enumerate(zip(cases, outs)):
-        if o is None:
+        if o is None or o == "n/a":
             continue
         want = expected(c)
         if o != want:
@@ -78,7 +92,7 @@ def check(res):
             if key not in keys:
                 keys.add(key)
                 res.violation("oracle:" + key, "applying a %s substitution to parameter %s (%s its domain) yields %s, expected %s" %
-                              ("elementary" if kind == "elem" else "general", qs[j], "inside" if inside else "outside", o.split()[j], want.split()[j]),
+                              ("elementary" if kind == "elem" else "general" if kind == "gen" else "copied general", qs[j], "inside" if inside else "outside", o.split()[j], want.split()[j]),
                               {"case": c[:800], "observed": o[:400], "expected": want[:400], "rerun": "echo '<case>' | subst_driver"})
         elif i < len(ml) and re.sub(r"v(\d+)", lambda m_: val(int(m_.group(1))), ml[i]) != o:
             nd += 1
@@ -91,7 +105,8 @@ def check(res):
         "distinct_nontrivial": len(set(cases)),
         "rule": "one Lexicon for the whole run (so that caches would show); elementary substitutions (fresh values, renamings, identity bindings, the same "
                 "binding requested again) queried on every parameter of three parameter lists, two of which share level and positions; "
-                "general substitutions with 0..100 bindings over domains of 1..30 parameters incl. rebinding, queried on all or 10 random parameters",
+                "general substitutions with 0..100 bindings over domains of 1..30 parameters incl. rebinding, queried on all or 10 random parameters; "
+                "copies (assignment and copy construction) of general substitutions, queried after the original received further bindings",
         "samples": [cases[0][:160], cases[len(cases) // 2][:160]],
         "traces_validated_against_impl": min(len(ml), len(outs)),
     })
